@@ -255,3 +255,63 @@ func FuzzC01Token(f *testing.F) {
 		}
 	})
 }
+
+// FuzzC25QueryJSON: arbitrary bytes as the JSON of a Query. Whatever decodes
+// must (a) re-marshal to a fixed point (marshal(unmarshal(marshal(q))) ==
+// marshal(q)), (b) evaluate its prefilter identically before and after the
+// round trip on a fixed set of block metadata, and (c) be either rejected with
+// an error or answered identically by the fixed 32-row engine before and after
+// the round trip — never a panic.
+func FuzzC25QueryJSON(f *testing.F) {
+	seeds := []string{
+		`{"Bloom":{"Expression":{"ExpressionType":"AND","Children":[{"ExpressionType":"CONDITION","Condition":{"Type":"FIELD","Field":"f0"}},{"ExpressionType":"OR","Children":[{"ExpressionType":"CONDITION","Condition":{"Type":"TOKEN","Token":"t1"}},{"ExpressionType":"CONDITION","Condition":{"Type":"FIELD_TOKEN","Field":"ft2","Token":"v"}}]}]}}}`,
+		`{"Regex":{"Expression":{"ExpressionType":"OR","Children":[{"ExpressionType":"CONDITION","Condition":{"Field":"tk","Pattern":"(^| )t3( |$)"}},{"ExpressionType":"CONDITION"}]}}}`,
+		`{"Prefilter":{"Expression":{"ExpressionType":"AND","Children":[{"ExpressionType":"CONDITION","Condition":{"ConditionType":"MINMAX","MinMaxFieldName":"k0","MinMaxCondition":{"Operator":"BETWEEN","Min":0,"Max":9223372036854775806}}},{"ExpressionType":"CONDITION","Condition":{"ConditionType":"PARTITION","PartitionCondition":{"Operator":"IN","Values":["r01","r31"]}}}]}}}`,
+		`{}`, `null`, `{"Bloom":{}}`, `{"Prefilter":{"Expression":{"ExpressionType":"XOR"}}}`,
+	}
+	for _, s := range seeds {
+		f.Add([]byte(s))
+	}
+	blocks := []bs.DataBlockMetadata{
+		{PartitionID: "r01", MinMaxIndexes: map[string]bs.MinMaxIndex{"k0": {Min: 0, Max: 1}, "k1": {Min: -5, Max: 5}}},
+		{PartitionID: "", MinMaxIndexes: map[string]bs.MinMaxIndex{"k0": {Min: 9223372036854775807, Max: 9223372036854775807}}},
+		{PartitionID: "r31"},
+	}
+	f.Fuzz(func(t *testing.T, data []byte) {
+		if len(data) > 1<<14 {
+			return
+		}
+		var q bs.Query
+		if json.Unmarshal(data, &q) != nil {
+			return
+		}
+		js1, err := json.Marshal(&q)
+		if err != nil {
+			t.Fatalf("VIOLATION: a decoded Query does not marshal: %v", err)
+		}
+		var back bs.Query
+		if err := json.Unmarshal(js1, &back); err != nil {
+			t.Fatalf("VIOLATION: marshal output of a Query does not decode: %v\n%s", err, js1)
+		}
+		js2, _ := json.Marshal(&back)
+		if !bytes.Equal(js1, js2) {
+			t.Fatalf("VIOLATION: Query JSON is not a fixed point of the round trip:\nfirst  %s\nsecond %s", js1, js2)
+		}
+		for i := range blocks {
+			if a, b := bs.EvaluateDataBlockMetadata(&blocks[i], q.Prefilter), bs.EvaluateDataBlockMetadata(&blocks[i], back.Prefilter); a != b {
+				t.Fatalf("VIOLATION: prefilter evaluates differently after a JSON round trip (%v vs %v) on block %d\n%s", a, b, i, js1)
+			}
+		}
+		got1, qerr1, herr := c25Run(&q)
+		if herr != nil {
+			t.Skip()
+		}
+		got2, qerr2, _ := c25Run(&back)
+		if (qerr1 == nil) != (qerr2 == nil) {
+			t.Fatalf("VIOLATION: Query accepted/rejected differently after a JSON round trip (%v vs %v)\n%s", qerr1, qerr2, js1)
+		}
+		if qerr1 == nil && !sameInts(got1, got2) {
+			t.Fatalf("VIOLATION: Query results differ after a JSON round trip: %v vs %v\n%s", got1, got2, js1)
+		}
+	})
+}
